@@ -160,13 +160,18 @@ def run_check(prop, tier="quick", seed=0, replay=None):
     t_impl_start = time.time()
     rng = random.Random(seed)
     eff_tier = tier
-    if proof_break and tier == "quick":
-        eff_tier = "thorough"      # the finder searches harder when a proof no longer checks
     if replay:
         rp = json.load(open(replay))
         cases = [rp["case"]] if "case" in rp else []
     else:
-        cases = load_corpus(pid) + list(prop.cases(eff_tier, rng))
+        cases = load_corpus(pid) + list(prop.cases(tier, rng))
+        if proof_break and tier == "quick":
+            # the finder searches harder when a proof no longer checks: add a seeded sample
+            # of the thorough generators (bounded, so that the quick tier stays quick)
+            more = list(prop.cases("thorough", random.Random(seed + 1)))
+            k = min(len(more), 2 * len(cases) + 200)
+            cases = cases + random.Random(seed + 2).sample(more, k)
+            eff_tier = "quick+finder"
     known = fnd.load(pid)
     n_corpus = 0
     # witnesses of the listed findings always run
